@@ -706,6 +706,7 @@ func consRun(args []string) int {
 	onDisk := fs.Bool("ondisk", true, "validator replicas keep their state on disk (enables restart paths)")
 	maxVals := fs.Int("maxvals", 3, "scheduler MaxValidators")
 	maxPerEntity := fs.Int("maxperentity", 1, "scheduler MaxValidatorsPerEntity")
+	tied := fs.Bool("tiedstake", false, "all validator entities start with the same escrow (ties at the validator-count cut-off)")
 	extraNodes := fs.Int("extranodes", 0, "additional validator nodes run by entity 0 (per-entity limit stays 1)")
 	sanity := fs.Bool("sanity", false, "register the in-tree supplementary sanity checker in the observer (it halts the chain on a failure; TLC is the oracle, so it is off by default)")
 	concurrent := fs.Bool("concurrent", true, "run CheckTx / EstimateGas / state queries in goroutines while validator replicas execute blocks")
@@ -730,7 +731,7 @@ func consRun(args []string) int {
 	}
 	defer w.Close()
 	cfg := cnCfg{Validators: *vals, Users: *users, EpochInterval: *interval, Seed: *seed, ChainID: fmt.Sprintf("verif-chain-%d", *seed),
-		MaxValidators: *maxVals, MaxPerEntity: *maxPerEntity, ExtraNodes: *extraNodes}
+		MaxValidators: *maxVals, MaxPerEntity: *maxPerEntity, ExtraNodes: *extraNodes, TiedStake: *tied}
 	net, err := newNet(cfg, *scratch)
 	if err != nil {
 		fmt.Fprintln(os.Stderr, "net:", err)
